@@ -340,7 +340,13 @@ impl AsyncSmtpConnection {
 
     /// Checks if the server is connected using the NOOP SMTP command
     pub async fn test_connected(&mut self) -> bool {
-        self.command(Noop).await.is_ok()
+        let connected = self.command(Noop).await.is_ok();
+        if !connected {
+            // The dialogue can no longer be trusted to be in step (the reply
+            // may still arrive): this connection must not be used again
+            self.abort().await;
+        }
+        connected
     }
 
     /// Sends an AUTH command with the given mechanism, and handles the challenge if needed
